@@ -72,6 +72,13 @@ def inverseRowOk (row : Row) : Bool :=
 turn back into exactly that unit, alone and after a sokuon — all rows except the recorded findings. -/
 theorem C17_client_inverse : table.all inverseRowOk = true := by decide +kernel
 
+/-- **The recorded findings are genuine**: without the exclusions the clause is false — the server
+spells っあ as "aa" and the client reads "aa" back as ああ (doubling a vowel does not mean っ).  Kernel-
+evaluated witness; the same unit is replayed on the implementation by the C17 check (D9). -/
+theorem C17_client_inverse_false_for_sokuon_a :
+    serverConv [0x3063, 0x3042] = some [97, 97] ∧ clientConv [97, 97] = some [0x3042, 0x3042] := by
+  constructor <;> decide +kernel
+
 /-- Katakana behaves as its hiragana: every row's katakana is the hiragana shifted by U+60. -/
 theorem C17_katakana_rows : table.all (fun row => beqStr row.2.1 (row.1.map (· + 0x60))) = true := by
   decide +kernel
